@@ -67,6 +67,9 @@ type Server struct {
 	// required, true when server is in shutdown
 	inShutdown atomic.Bool
 
+	// whether HTTPServer.ConnState has been wrapped with a recovering hook
+	connStateWrapped bool
+
 	// required, mutex for initiating the server
 	mu sync.Mutex
 }
@@ -215,6 +218,20 @@ func (server *Server) setupServe() {
 		server.ctx = context.Background()
 	}
 	server.HTTPServer.ConnContext = updateConnContext
+	if hook := server.HTTPServer.ConnState; hook != nil && !server.connStateWrapped {
+		// net/http calls the hook for StateNew on its accept loop, where a
+		// panicking hook would terminate the process: confine it to the connection
+		server.connStateWrapped = true
+		server.HTTPServer.ConnState = func(c net.Conn, state http.ConnState) {
+			defer func() {
+				if r := recover(); r != nil {
+					server.logf("panic in ConnState hook (%s): %v", c.RemoteAddr(), r)
+					c.Close()
+				}
+			}()
+			hook(c, state)
+		}
+	}
 	server.HTTPServer.BaseContext = func(l net.Listener) context.Context {
 		return server.ctx
 	}
